@@ -43,6 +43,7 @@ func checkC17(c *core.Ctx) {
 	if c.Thorough() {
 		shapes = enum.Shapes(5, []int{1, 2, 3})
 	}
+	shapes = append(shapes, []int{5}, []int{33}, []int{4, 7}, []int{130})
 	for _, s := range shapes {
 		for li, l := range c17LRs {
 			for gm := 0; gm < 3; gm++ {
@@ -193,6 +194,36 @@ func checkC17(c *core.Ctx) {
 			}
 		}
 	}
+	// ONE optimizer object updating tensors of different shapes one after the other
+	for li, l := range c17LRs {
+		l := l
+		c.Case(fmt.Sprintf("reuse/lr%d", li), true, func() core.Verdict {
+			opt := l.opt()
+			for k, s := range [][]int{{3}, {2, 2}, {4}, {}, {1, 4}, {33}, {2, 2}, {5, 7}} {
+				w0 := enum.Generic(s, uint64(520+k), 0.5, 3, true)
+				cc := enum.Generic(s, uint64(540+k), 0.5, 3, true)
+				w := rt.Make(w0, true)
+				y, err := w.Mul(rt.Make(cc, false))
+				if err != nil {
+					return core.Fail("Mul: %v", err)
+				}
+				if err := tensor.BackPropagate(y); err != nil {
+					return core.Fail("BackPropagate: %v", err)
+				}
+				if err := opt.Update(&w); err != nil {
+					return core.Fail("call %d on one SGD object (shape %v): %v", k+1, s, err)
+				}
+				exp := ref.New(s)
+				for i := range exp.V {
+					exp.V[i] = w0.V[i] - l.value()*cc.V[i]
+				}
+				if ok, msg := core.Close(rt.Read(w), exp, 10); !ok {
+					return core.Fail("call %d on one SGD object (shape %v): %s", k+1, s, msg)
+				}
+			}
+			return core.Pass()
+		})
+	}
 	// error paths
 	for li, l := range c17LRs {
 		l := l
@@ -235,9 +266,22 @@ func (ic initCall) String() string {
 	return fmt.Sprintf("%s(a=%g,b=%g,fi=%d,fo=%d,nil=%v)%v", ic.Name, ic.A, ic.B, ic.FanIn, ic.FanOut, ic.Nil, ic.Shape)
 }
 
+// objCache, when non-nil, makes run() reuse ONE initializer object per
+// configuration (the way a model builder holds on to its initializers).
+var c18ObjCache map[string]interface {
+	Init([]int) (tensor.Tensor, error)
+}
+
 // run executes the real call; returns the tensor and whether it must be tracked.
 func (ic initCall) run() (tensor.Tensor, bool, error) {
 	sh := ref.CopyShape(ic.Shape)
+	key := fmt.Sprintf("%s|%g|%g|%d|%d|%v", ic.Name, ic.A, ic.B, ic.FanIn, ic.FanOut, ic.Nil)
+	if c18ObjCache != nil && ic.Name != "RandU" && ic.Name != "RandN" {
+		if o, ok := c18ObjCache[key]; ok {
+			t, err := o.Init(sh)
+			return t, true, err
+		}
+	}
 	var in interface {
 		Init([]int) (tensor.Tensor, error)
 	}
@@ -278,6 +322,9 @@ func (ic initCall) run() (tensor.Tensor, bool, error) {
 	}
 	if err != nil {
 		return nil, true, err
+	}
+	if c18ObjCache != nil {
+		c18ObjCache[key] = in
 	}
 	t, err := in.Init(sh)
 	return t, true, err
@@ -320,9 +367,9 @@ func (ic initCall) dist() (kind string, a, b float64) {
 }
 
 func c18Alphabet(thorough bool) []initCall {
-	shapes := [][]int{{}, {3}, {2, 3}, {2, 1, 2}}
+	shapes := [][]int{{}, {3}, {2, 3}, {2, 1, 2}, {33}}
 	if thorough {
-		shapes = append(shapes, []int{1}, []int{1, 2, 2, 2}, []int{4, 4})
+		shapes = append(shapes, []int{1}, []int{1, 2, 2, 2}, []int{4, 4}, []int{5, 7}, []int{130})
 	}
 	var base []initCall
 	base = append(base,
@@ -498,6 +545,43 @@ func checkC18(c *core.Ctx) {
 			i, j := i, j
 			c.Case(fmt.Sprintf("two/%d,%d", i, j), true, func() core.Verdict {
 				return c18Sequence(seed+1, []initCall{alpha[i], alpha[j]})
+			})
+		}
+	}
+	// object reuse: ONE initializer object per configuration serves the whole
+	// sequence (same configuration, different shapes; interleaved with others)
+	var byCfg [][]initCall
+	{
+		idx := map[string]int{}
+		for _, ic := range alpha {
+			if ic.Name == "RandU" || ic.Name == "RandN" {
+				continue
+			}
+			k := fmt.Sprintf("%s|%g|%g|%d|%d|%v", ic.Name, ic.A, ic.B, ic.FanIn, ic.FanOut, ic.Nil)
+			if _, ok := idx[k]; !ok {
+				idx[k] = len(byCfg)
+				byCfg = append(byCfg, nil)
+			}
+			byCfg[idx[k]] = append(byCfg[idx[k]], ic)
+		}
+	}
+	for gi, g := range byCfg {
+		for gj, h := range byCfg {
+			if gj > gi+2 && gj%5 != 0 {
+				continue // every configuration with itself, its two successors and a fifth of the rest
+			}
+			g, h := g, h
+			c.Case(fmt.Sprintf("reuse/%d,%d", gi, gj), true, func() core.Verdict {
+				c18ObjCache = map[string]interface {
+					Init([]int) (tensor.Tensor, error)
+				}{}
+				defer func() { c18ObjCache = nil }()
+				var seq []initCall
+				for k := 0; k < len(g) && k < 4; k++ {
+					seq = append(seq, g[k], h[(k+1)%len(h)])
+				}
+				seq = append(seq, g[0], g[0])
+				return c18Sequence(seed+4, seq)
 			})
 		}
 	}
